@@ -106,8 +106,9 @@ def _w(path: str, content: bytes) -> None:
         f.write(content)
 
 
-def build_tree() -> dict:
-    """Create the test tree; returns a description with ground-truth locations."""
+def build_tree(chains: bool = False) -> dict:
+    """Create the test tree; returns a description with ground-truth locations.  `chains`: also the chains of nested symbolic
+    links (122 more entries; kept out of the tree of the exhaustive location scope to keep the model's lookups cheap)."""
     top = os.path.realpath(tempfile.mkdtemp(prefix="irverif-c10-"))
     R = os.path.join(top, "r")
     os.mkdir(R)
@@ -154,7 +155,7 @@ def build_tree() -> dict:
     # with the at most 7 other links a generated base + location can traverse (Linux counts ALL links of one resolution, the
     # model bounds their nesting: see ASSUMPTIONS); `deep` (46 links to an inside file) and `deep_3` (43): os.path.realpath
     # resolves them, the kernel says ELOOP; `deepout` (46 links to a canary outside)
-    for head, k, final in (("mid", 30, "f"), ("deep", 46, "f"), ("deepout", 46, "../outside/canary")):
+    for head, k, final in (("mid", 30, "f"), ("deep", 46, "f"), ("deepout", 46, "../outside/canary")) if chains else ():
         names = [head] + [f"{head}_{i}" for i in range(1, k)]
         for i, n in enumerate(names):
             os.symlink(names[i + 1] if i + 1 < k else final, os.path.join(R, "base", n))
@@ -465,7 +466,8 @@ def oracle(part, tree: dict, desc: dict, case: dict, obs: dict, true_base: str |
 TOKENS = [".", "..", "d", "f", "link_in", "link_out", ""]
 EXTRA_TOKENS = ["fifo", "zero", "dlink_out", "dlink_in", "hard", "up", "chain", "loop_a", "dangling", "link_abs_out", "link_abs_in",
                 "hard_in", "link_sib", "g", "e", "nothing", "basex", "outside", "base", "canary", "back", "link_in2",
-                "chain_in", "dangling_out", "blink", "mid", "deep", "deepout", "deep_13", "deep_3"]
+                "chain_in", "dangling_out", "blink"]
+CHAIN_TOKENS = ["mid", "deep", "deepout", "deep_13", "deep_3", "mid_29", "deepout_40"]
 
 
 def base_spellings(R: str) -> list[dict]:
@@ -565,9 +567,12 @@ def _work(job: dict) -> dict:
         oracle(part, tree, desc, case, obs, sp["true"])
         obs_list.append((case, obs))
         queries.append([sp["base"], loc, off or 0, NBYTES if ln is None else ln, ep])
-    both = lean_batch([{"m": "path.reads", "fs": fs_json(desc), "cwd": sp["cwd"], "kfuel": KFUEL, "fuel": PFUEL, "queries": queries},
-                       {"m": "path.reads", "fs": fs_json(desc), "cwd": sp["cwd"], "kfuel": KFUEL, "fuel": KFUEL, "queries": queries}])
-    outs, outs_k = both
+    reqs = [{"m": "path.reads", "fs": fs_json(desc), "cwd": sp["cwd"], "kfuel": KFUEL, "fuel": PFUEL, "queries": queries}]
+    if job.get("fuelcmp"):
+        reqs.append({"m": "path.reads", "fs": fs_json(desc), "cwd": sp["cwd"], "kfuel": KFUEL, "fuel": KFUEL, "queries": queries})
+    both = lean_batch(reqs)
+    outs = both[0]
+    outs_k = both[1] if len(both) > 1 else {"r": []}
     if "r" not in outs or "r" not in outs_k:
         part.disagree("model error", {"sp": sp}, outs, None)
         return part
@@ -581,6 +586,7 @@ def _work(job: dict) -> dict:
             part.disagree("model outcome depends on the recursion bound although fuel >= kfuel (C10_fuel_discharged)", case, o1, o0)
         if o1["v"] != o0["v"]:
             part.count("fuel_verdict_differs_outcome_same")
+    for (case, obs) in obs_list:
         try:
             os.stat(os.path.join(case["cwd"], case["base"], case["loc"]))
             part.count("eloop_hypothesis=path-resolves")
@@ -1298,7 +1304,21 @@ def run(ctx: Ctx) -> None:
             nchunks = ctx.pick(4, 8)
             k = max(1, (len(cases) + nchunks - 1) // nchunks)
             for i in range(0, len(cases), k):
-                jobs.append({"tree": tree, "desc": desc, "sp": sp, "cases": cases[i:i + k]})
+                jobs.append({"tree": tree, "desc": desc, "sp": sp, "cases": cases[i:i + k], "fuelcmp": (len(jobs) % 3 == 0)})
+        # the tree with chains of nested symbolic links (ELOOP; recursion bound vs kernel bound): random locations around the chains
+        tree2 = build_tree(chains=True)
+        desc2 = describe_tree(tree2["R"])
+        check_links(ctx, desc2, "fixed tree with chains")
+        for sp in [x for x in base_spellings(tree2["R"]) if x["kind"] in ("abs", "rel", "abs-symlink", "abs-symlink-up", "rel-symlink-dotdot", "abs-missing", "abs-symlink-loop")]:
+            cases = []
+            for _ in range(ctx.pick(120, 1500)):
+                n_ = ctx.rng.randrange(1, 5)
+                seq = [ctx.rng.choice(CHAIN_TOKENS) if ctx.rng.random() < 0.5 else ctx.rng.choice(TOKENS + ["dlink_in", "up", "back", "blink"]) for _ in range(n_)]
+                loc = "/".join(seq)
+                if ctx.rng.random() < 0.15:
+                    loc = tree2["R"] + "/base/" + loc
+                cases.append((loc, ctx.rng.choice(ENTRY_POINTS), 0, NBYTES))
+            jobs.append({"tree": tree2, "desc": desc2, "sp": sp, "cases": cases, "fuelcmp": True})
         for p in pmap(_work, jobs):
             ctx.merge(p)
         # realpath / lstat / stat of the model vs os.path.realpath and the kernel
@@ -1317,14 +1337,16 @@ def run(ctx: Ctx) -> None:
             ctx.merge(p)
         load_cases(ctx, tree, desc)
         nested_load_cases(ctx, tree, desc)
-        odd_cases(ctx, tree, desc)
-        size_zero_cases(ctx, tree, desc)
+        odd_cases(ctx, tree2, desc2)
+        size_zero_cases(ctx, tree2, desc2)
         stateful_sequences(ctx)
         world_sequences(ctx)
         random_trees(ctx)
     finally:
         os.chdir(old)
         shutil.rmtree(tree["top"], ignore_errors=True)
+        if "tree2" in locals():
+            shutil.rmtree(tree2["top"], ignore_errors=True)
 
 
 def odd_cases(ctx: Ctx, tree: dict, desc: dict) -> None:
@@ -2108,7 +2130,7 @@ def replay(ctx: Ctx, obj: dict) -> None:
         run_scenario(part, case["loc"], [tuple(x) for x in case["steps"]], case.get("sequence", "replay"))
         ctx.merge(part)
         return
-    tree = build_tree()
+    tree = build_tree(chains=True)
     old = os.getcwd()
     try:
         desc = describe_tree(tree["R"])
